@@ -355,3 +355,19 @@ func jsonUnmarshal(b []byte, v any) error { return json.Unmarshal(b, v) }
 func bigOf(x int64) *big.Int { return big.NewInt(x) }
 
 func bytesBuf() *bytes.Buffer { return &bytes.Buffer{} }
+
+// dumpFailure writes the full inputs of a failing case under $VERIF_DUMP (debugging aid; no effect when unset).
+func dumpFailure(name string, files map[string][]byte) {
+	d := os.Getenv("VERIF_DUMP")
+	if d == "" {
+		return
+	}
+	dumpSeq++
+	dir := fmt.Sprintf("%s/%s-%d", d, name, dumpSeq)
+	_ = os.MkdirAll(dir, 0o755)
+	for n, b := range files {
+		_ = os.WriteFile(dir+"/"+n, b, 0o644)
+	}
+}
+
+var dumpSeq int
